@@ -1,4 +1,4 @@
-import RsMatterVerif.Lemmas.ExpandEvents
+import RsMatterVerif.Lemmas.ExpandAcl
 /-!
 # C06 — every Interaction Model operation is mediated by the access check
 
@@ -6,8 +6,11 @@ import RsMatterVerif.Lemmas.ExpandEvents
 `fuel` calls of `next`; all statements hold for every `fuel`, i.e. for every prefix of the
 expansion. `Expand.expected` is the specification written from the property text.
 The access-control state (`ctx.fabrics`), the requester and the node are fixed during one
-expansion (see `docs/C06.md` for the one deliberate exception in the code, the last-authorised
-cache across an ACL rewrite).
+expansion, except in `node_swap_safe` (the node composition changes between calls) and in
+`acl_rewrite_cache` (the ACL is rewritten between calls: what the last-authorised cache then does).
+The effects of a request are the call log of the transliterated invoker loop (`Expand.processAll`),
+`handler_calls_are_yielded_items`. Fabric-sensitive events: `event_other_fabric_never_disclosed`
+(for every value of the requester-controlled `isFabricFiltered`).
 -/
 namespace C06
 open Acl Expand
@@ -35,8 +38,9 @@ theorem wildcard_never_errors (ctx : Ctx) (op : Operation) (node : Node) (paths 
     p ∈ paths ∧ ¬ SupportedWildcard op p :=
   run_sound fuel _ (inv_init ctx op node paths) _ h
 
-/-- **Denied means no effect.** If no element matching the (any) path is authorised, no item comes
-out — the invoker / writer only ever act on items. -/
+/-- **Denied means no item.** If no element matching the (any) path is authorised, the expander yields
+statuses only. That no handler is then called is `denied_request_calls_no_handler` (a theorem about the
+transliterated invoker loop). -/
 theorem denied_has_no_effect (ctx : Ctx) (op : Operation) (node : Node) (paths : List Path) (fuel : Nat)
     (hden : ∀ ep cl lf, (∃ p ∈ paths, PathMatches p ep cl lf) → ¬ Authorised ctx op node (ep, cl, lf)) :
     ∀ o ∈ expand ctx op node paths fuel, ∃ p s, o = .status p s := by
@@ -383,6 +387,25 @@ theorem node_swap_safe (ctx : Ctx) (op : Operation) (p : Path) (hsw : SupportedW
     simp only [resumeEndpointIndex, List.drop_zero]
     rw [wEndpointsFrom_zero]
     exact List.mem_flatMap.mpr ⟨E, hE n hn, ho⟩
+
+/-! ## the access-control state is rewritten inside the request (what the cache is for) -/
+
+/-- **`acl_rewrite_cache`.** All other statements fix the ACL for the duration of a request. The
+last-authorised cache exists for the one case where it is not fixed: a WriteRequest whose items rewrite
+the ACL (`DeleteAll` + N×`Add` on the same attribute path; the handler of an item runs between two
+calls of `next`). With call `i` seeing `ctxs[i]` (any ACL per call, same requester and filter), every
+item answered is an enabled, reachable, filter-accepted leaf of the node, and its access was granted
+by the check under **the ACL of its own call** — unless it names the same `(endpoint, cluster, leaf)`
+as the item answered immediately before it, in which case the earlier decision is reused and the
+rewritten ACL is not consulted (`mLastSuccessfullyWrittenPath` of the reference implementation). An
+item on a *different* path is always checked against the ACL as the earlier items left it. -/
+theorem acl_rewrite_cache (op : Operation) (node : Node) (ctxs : List Ctx) (paths : List Path)
+    (i ep cl lf : Nat) (w a : Bool)
+    (h : (runCtx op node ctxs { items := paths })[i]? = some (Out.item ep cl lf w a)) :
+    ∃ ctx, ctxs[i]? = some ctx ∧ ExistsFor ctx op node (ep, cl, lf) ∧
+      (Authorised ctx op node (ep, cl, lf) ∨
+        lastItemOf none ((runCtx op node ctxs { items := paths }).take i) = some (ep, cl, lf)) :=
+  runCtx_cache op node ctxs { items := paths } i ep cl lf w a h
 
 /-! ## the whole request as the controller and the handlers see it (`imRequest`) -/
 
@@ -858,6 +881,19 @@ example : runSwap demoCtxAll .read [demoNode, demoNode2, demoNode2, demoNode, de
     swapEnded demoCtxAll .read [demoNode, demoNode2, demoNode2, demoNode, demoNode, demoNode] { items := [wild] } = true := by
   decide
 example : SupportedWildcard .read wild := ⟨rfl, Or.inl rfl⟩
+
+/-- an ACL rewrite inside one WriteRequest: the requester is Administrator when the first item is
+checked; the handler of that item empties the ACL (calls 2 and 3 see `demoCtxNone`). The second item —
+same path — is let through by the cache; the third — another path — is checked against the emptied
+ACL and refused. Under the emptied ACL alone nothing would be written. -/
+def demoCtxAdminT : Ctx := { demoCtx true with fabrics := demoAclAll }
+def demoCtxNone : Ctx := { demoCtx true with fabrics := [ { fabIdx := 1, acl := [], groups := [] } ] }
+example : runCtx .write demoNode [demoCtxAdminT, demoCtxNone, demoCtxNone, demoCtxNone]
+      { items := [conc 0 31 0, conc 0 31 0, conc 1 6 1] } =
+    [.item 0 31 0 false true, .item 0 31 0 false true, .status (conc 1 6 1) .unsupportedAccess] ∧
+    expand demoCtxNone .write demoNode [conc 0 31 0, conc 0 31 0, conc 1 6 1] 10 =
+    [.status (conc 0 31 0) .unsupportedAccess, .status (conc 0 31 0) .unsupportedAccess,
+     .status (conc 1 6 1) .unsupportedAccess] := by decide
 
 /-- events: endpoint 1 / cluster 6 with events 0 (`RV`) and 1 (`R` + Manage) -/
 def demoNodeEv : Node :=
